@@ -106,13 +106,35 @@ class Unit:
     def path(self, x):
         return os.path.join(self.work, '%s.%s' % (self.name, x))
 
+    def subst_inc(self):
+        """opt-in unit key src_subst={'File.cc': [(regex, replacement, expected_count), ...]}: the listed phosg source files
+        are copied into the work dir with the substitutions applied and that dir is put in front of $REPO/src on the include
+        path of BOTH builds (clang IR and g++ real). Meant for ONE purpose: replacing an internal block-size constant that is
+        not a macro (e.g. `static const ssize_t read_size = 16 * 1024;`) by a -D controlled one so that block-boundary logic
+        is within the solver's reach. Every substitution is part of the claim (spec.BOUNDS/ASSUMPTIONS must state it); a
+        pattern that does not match exactly expected_count times makes the unit inconclusive."""
+        sub = self.cfg.get('src_subst')
+        if not sub:
+            return []
+        d = self.path('subst')
+        os.makedirs(d, exist_ok=True)
+        for fn, rules in sub.items():
+            txt = open(os.path.join(REPO, 'src', fn)).read()
+            for pat, rep, cnt in rules:
+                txt, n = re.subn(pat, rep, txt)
+                if n != cnt:
+                    raise Inconclusive('src_subst %r on %s: %d matches, expected %d' % (pat, fn, n, cnt))
+            with open(os.path.join(d, fn), 'w') as f:
+                f.write(txt)
+        return ['-I' + d]
+
     def build(self):
         with self.lock:
             if self.built:
                 return
             cfg = self.cfg
             wrap = os.path.join(self.pdir, cfg['wrap'])
-            inc = ['-I' + os.path.join(REPO, 'src'), '-I' + RT]
+            inc = self.subst_inc() + ['-I' + os.path.join(REPO, 'src'), '-I' + RT]
             shim = ['-I' + SHIM] if cfg.get('shim') else []
             flags = CXXFLAGS + list(cfg.get('cxxflags', []))
             t0 = time.time()
@@ -191,7 +213,7 @@ class Unit:
                 return
             cfg = self.cfg
             wrap = os.path.join(self.pdir, cfg['wrap'])
-            inc = ['-I' + os.path.join(REPO, 'src'), '-I' + RT]
+            inc = self.subst_inc() + ['-I' + os.path.join(REPO, 'src'), '-I' + RT]
             flags = ['-std=c++20', '-O1', '-g', '-w', '-DPHOSG_VERIF', '-DVERIF_NATIVE_REAL', '-fsanitize=address,undefined',
                      '-fno-sanitize-recover=undefined', '-fno-omit-frame-pointer', '-ffunction-sections', '-fdata-sections'] + list(cfg.get('cxxflags', []))
             rc, out, err, _, _ = sh(['g++'] + flags + inc + ['-c', wrap, '-o', self.path('real.o')])
